@@ -59,6 +59,15 @@ type Block struct {
 	Missed   []int         `json:"missed,omitempty"`   // key indices of expected signers that missed
 	Evidence []Evidence    `json:"evidence,omitempty"`
 	Events   []Event       `json:"events,omitempty"`
+	// VotePower: the power the consensus engine reports in the vote of a validator of the previous
+	// set, when it is not the power of that set (a reported power larger or smaller than the current one)
+	VotePower []VotePow `json:"vote_power,omitempty"`
+}
+
+// VotePow overrides the power reported in one validator's vote.
+type VotePow struct {
+	Val   int   `json:"val"`
+	Power int64 `json:"power"`
 }
 
 func (b Block) String() string {
@@ -71,6 +80,9 @@ func (b Block) String() string {
 	}
 	if len(b.Missed) > 0 {
 		s += fmt.Sprintf("missed=%v ", b.Missed)
+	}
+	for _, o := range b.VotePower {
+		s += fmt.Sprintf("votepower(%d)=%d ", o.Val, o.Power)
 	}
 	for _, e := range b.Evidence {
 		s += fmt.Sprintf("ev(%d,-%d,%s,p=%d) ", e.Val, e.HeightAgo, e.Age, e.Power)
@@ -373,8 +385,14 @@ func (d *Driver) BeginReq(b Block) abci.RequestBeginBlock {
 	var votes []abci.VoteInfo
 	for _, v := range d.PrevSet {
 		idx := KeyIndexByAddr(v.Addr, d.NumKeys)
+		pw := v.Power
+		for _, o := range b.VotePower {
+			if o.Val == idx {
+				pw = o.Power
+			}
+		}
 		votes = append(votes, abci.VoteInfo{
-			Validator:       abci.Validator{Address: v.Addr, Power: v.Power},
+			Validator:       abci.Validator{Address: v.Addr, Power: pw},
 			SignedLastBlock: !contains(b.Missed, idx),
 		})
 	}
